@@ -389,11 +389,13 @@ func (o *oracle) onPublish(inst *Instance, inc int, st *Store, b []byte) {
 	w.note("publish i%d.%d size=%d root=%s ts=%d", inst.idx, inc, ev.STH.Size, ev.STH.Root, ev.STH.Timestamp)
 	// M-lockfirst
 	id, _ := ctlog.VerifLogID(inst.key)
-	found := false
+	found, own := false, false
 	var lockLast *CkptEvent
 	for _, le := range w.lock.hist[id] {
 		if le.STH != nil && le.STH.Size == ev.STH.Size && le.STH.Root == ev.STH.Root && le.STH.Timestamp == ev.STH.Timestamp {
 			found = true
+			// committed by the publishing incarnation itself (its own round)
+			own = own || (le.Inst == inst.idx && le.Inc == inc)
 		}
 		lockLast = le
 	}
@@ -402,12 +404,14 @@ func (o *oracle) onPublish(inst *Instance, inc int, st *Store, b []byte) {
 	}
 	stale := lockLast != nil && lockLast.STH != nil && (lockLast.STH.Size != ev.STH.Size || lockLast.STH.Root != ev.STH.Root || lockLast.STH.Timestamp != ev.STH.Timestamp) &&
 		(lockLast.Inst != inst.idx || lockLast.Inc != inc)
-	ev.StaleLock = stale
+	ev.StaleLock = stale && own
 	if prev != nil && prev.STH != nil {
 		regress := ev.STH.Size < prev.STH.Size || ev.STH.Timestamp <= prev.STH.Timestamp
 		if regress {
-			if stale && len(w.insts) > 1 {
-				// Known finding C06-1: a stale instance publishes over a newer checkpoint.
+			if stale && own && len(w.insts) > 1 {
+				// Known finding C06-1: an instance publishes the checkpoint of its own
+				// round after a newer instance has overtaken it. (A stale checkpoint
+				// published by anyone else, e.g. by a loading instance, is not that.)
 				o.staleRegress = true
 				w.sim.ViolateSig("C01", "published-regress", "stale-instance-publish",
 					"published checkpoint went from size %d/ts %d to size %d/ts %d (publisher i%d.%d holds a stale lock value)",
